@@ -33,7 +33,8 @@ Inductive oevent : Type :=
 | OEos
 | OPosition (ms : Z).
 
-Inductive oret : Type := ORaise | ONone | OBool (b : bool) | OTagsRet (d : dict).
+Inductive oret : Type :=
+| ORaise | ORaiseAudio | ONone | OBool (b : bool) | OTagsRet (d : dict) | OPos (ms : Z).
 
 Record obs : Type := mkObs {
   b_ret : oret;
@@ -59,7 +60,9 @@ Definition obs_ret (r : res exn retv) : oret :=
   | Ok RNone => ONone
   | Ok (RBool b) => OBool b
   | Ok (RTags d) => OTagsRet (sort_dict d)
+  | Ok (RPos ms) => OPos ms
   | Raise KeyError => ORaise
+  | Raise AudioException => ORaiseAudio
   | Diverge => ORaise
   end.
 
@@ -84,12 +87,15 @@ Definition cmd_eqb (a b : cmd) : bool :=
   | CFlags f, CFlags f' => f =? f'
   | CUri u, CUri u' => u =? u'
   | CSeek c, CSeek c' => c =? c'
+  | CCallAtf, CCallAtf | CCallSource, CCallSource | CSetLive, CSetLive | CProxy, CProxy => true
   | _, _ => false
   end.
 
 Definition oret_eqb (a b : oret) : bool :=
   match a, b with
   | ORaise, ORaise => true
+  | ORaiseAudio, ORaiseAudio => true
+  | OPos x, OPos y => x =? y
   | ONone, ONone => true
   | OBool x, OBool y => Bool.eqb x y
   | OTagsRet d, OTagsRet d' => dict_eqb d d'
